@@ -102,8 +102,9 @@ func c35Case(g *Gen) {
 		deleg[v] = map[int]*big.Int{}
 		bond[v] = map[int]*big.Int{}
 	}
+	hot := false // the extra address registers mid-term (enable event) and collects votes
 	target := func() int {
-		if extra && g.Intn(6) == 0 {
+		if extra && (g.Intn(6) == 0 || (hot && g.Intn(3) == 0)) {
 			return N - 1
 		}
 		return g.Intn(nP)
@@ -150,7 +151,12 @@ func c35Case(g *Gen) {
 	}
 	for p := 0; p < N; p++ {
 		if extra && p == N-1 && g.Intn(2) == 0 {
-			continue // unregistered target: no Voted record
+			// unregistered target: no Voted record; half of these register during the term
+			// (only if nobody votes for it in the base state, otherwise the base would be inconsistent)
+			if sum(deleg, p).Sign() == 0 && sum(bond, p).Sign() == 0 {
+				hot = g.Intn(2) == 0
+			}
+			continue
 		}
 		if p >= nP && !(extra && p == N-1) {
 			continue
@@ -180,6 +186,12 @@ func c35Case(g *Gen) {
 		nE = g.Intn(25)
 	}
 	off := 0
+	if hot {
+		g.Emit("ev_enable 0 %d 0", N-1)
+		if nE < 4 {
+			nE = 4 + g.Intn(6)
+		}
+	}
 	for e := 0; e < nE; e++ {
 		if L > 0 && off < L {
 			switch g.Intn(4) {
